@@ -106,6 +106,15 @@ Section ListObjects.
     | Some k => (run_prefix k cands check 0 arrival, true)
     end.
 
+  (* 7. the pipeline engine as seen by Execute: the object worker's DeduplicatingReceiver lets each
+        value through once (outputBuffer.LoadOrStore), and the loop
+            for { value, ok := p.Recv(ctx); ...; res.Objects = append(res.Objects, value);
+                  if maxResults > 0 && len(res.Objects) >= maxResults { break } }
+        keeps the first maxResults of them.  [values] = the values the workers deliver, in delivery
+        order, with repetitions. *)
+  Definition pipeline_recv (values : list A) (limit : nat) : list A :=
+    cut limit (distinct_objs (map (fun v => (v, NoFurtherEval)) values)).
+
   (* ---- the reverse-expansion contract, as boolean predicates (checked on the real stream) ---- *)
   (* every candidate sent with NoFurtherEval is permitted *)
   Definition nofurther_sound (permitted : A -> bool) (cands : list cand) : bool :=
@@ -140,3 +149,4 @@ Definition same_set_nat := same_set nat Nat.eqb.
 Definition attempts_nat := attempts nat Nat.eqb.
 Definition distinct_objs_nat := distinct_objs nat Nat.eqb.
 Definition execute_nat := execute nat Nat.eqb.
+Definition pipeline_recv_nat := pipeline_recv nat Nat.eqb.
